@@ -87,7 +87,10 @@ func (b *Broker) send(ctx context.Context, id string, responder chan map[string]
 		return false
 	}
 	responder <- result
-	go b.doHeartBeat(ctx, id)
+	// the heartbeat outlives this request: bound to its context it would take
+	// the subscriber offline as soon as the request (a poll over HTTP, a call
+	// under the timeout plugin, a publish) is over
+	go b.doHeartBeat(context.Background(), id)
 	return true
 }
 
